@@ -4,7 +4,7 @@
 use crate::common::*;
 use crate::rng::Rng;
 use petgraph::data::{Build, Create, DataMap, DataMapMut, Element, FromElements};
-use petgraph::graph::{EdgeIndex, Graph, IndexType, NodeIndex};
+use petgraph::graph::{EdgeIndex, Graph, IndexType, NodeIndex, WalkNeighbors};
 use petgraph::stable_graph::StableGraph;
 use petgraph::visit::{EdgeRef, IntoNodeReferences};
 use petgraph::Direction::{Incoming, Outgoing};
@@ -842,6 +842,171 @@ fn query<Ty: EdgeType, Ix: IndexType>(ctx: &mut Ctx, gen: &mut Gen, g: &Graph<W,
     }
 }
 
+/// `walker_new a mode`: detach a walker from `neighbors_directed(a, dir)` / `neighbors_undirected(a)` and keep it
+/// alive beside the graph (a `WalkNeighbors` holds no borrow); the answer is its name (= position)
+fn walker_new<Ty: EdgeType, Ix: IndexType>(
+    ctx: &mut Ctx,
+    gen: &mut Gen,
+    g: &Graph<W, W, Ty, Ix>,
+    walkers: &mut Vec<WalkNeighbors<Ix>>,
+) {
+    // mostly a node that has incident edges (an endpoint of a random edge), else any (possibly absent) index
+    let m = g.edge_count();
+    let a = if m > 0 && gen.rng.chance(60) {
+        let (s, t) = g.edge_endpoints(ei(gen.rng.below(m))).unwrap();
+        if gen.rng.chance(50) {
+            s.index()
+        } else {
+            t.index()
+        }
+    } else {
+        gen.arg(g.node_count())
+    };
+    let mode = *gen.rng.pick(&["o", "i", "u"]);
+    let r = catch(|| match mode {
+        "o" => g.neighbors_directed(ni(a), Outgoing).detach(),
+        "i" => g.neighbors_directed(ni(a), Incoming).detach(),
+        _ => g.neighbors_undirected(ni(a)).detach(),
+    });
+    match r {
+        Some(wk) => {
+            walkers.push(wk);
+            ctx.line(&format!("walker_new {} {}", a, mode), &(walkers.len() - 1).to_string());
+        }
+        None => ctx.line(&format!("walker_new {} {}", a, mode), "panic"),
+    }
+}
+
+/// `walker_next w`: one step of a (possibly stale) walker on the CURRENT graph, through `next` or through
+/// `next_edge` on a clone + `next_node` on the walker itself (the two must agree)
+fn walker_next<Ty: EdgeType, Ix: IndexType>(
+    ctx: &mut Ctx,
+    style: usize,
+    g: &Graph<W, W, Ty, Ix>,
+    walkers: &mut [WalkNeighbors<Ix>],
+    w: usize,
+) -> bool {
+    let wk = &mut walkers[w];
+    let r = catch(|| {
+        if style == 0 {
+            match wk.next(g) {
+                Some((e, x)) => format!("some {}:{}", e.index(), x.index()),
+                None => "none".to_string(),
+            }
+        } else {
+            let mut c = wk.clone();
+            let e = c.next_edge(g);
+            let x = wk.next_node(g);
+            match (e, x) {
+                (Some(e), Some(x)) => format!("some {}:{}", e.index(), x.index()),
+                (None, None) => "none".to_string(),
+                _ => "INCONSISTENT-next_edge-next_node".to_string(),
+            }
+        }
+    });
+    let ans = or_panic(r);
+    let done = ans != "none" && ans.starts_with("some");
+    ctx.line(&format!("walker_next {}", w), &ans);
+    done
+}
+
+fn walker_steps<Ix: IndexType>(ctx: &mut Ctx, gen: &mut Gen, any: &AnyG<Ix>, walkers: &mut [WalkNeighbors<Ix>], w: usize, steps: usize) {
+    for _ in 0..steps {
+        let style = gen.rng.below(3);
+        let more = match any {
+            AnyG::D(g) => walker_next(ctx, style, g, walkers, w),
+            AnyG::U(g) => walker_next(ctx, style, g, walkers, w),
+        };
+        if !more {
+            break;
+        }
+    }
+}
+
+/// calls that keep the structure of the graph (the documented use of a live `WalkNeighbors`: "step through … while
+/// also mutating graph weights"), plus queries, clone and capacity calls
+const QUIET: [K; 13] = [
+    K::EdgeWeightMut,
+    K::NodeWeightMut,
+    K::IndexMutEdge,
+    K::IndexMutNode,
+    K::IndexTwiceMut,
+    K::BumpEdges,
+    K::BumpNodes,
+    K::Map,
+    K::Walk,
+    K::CloneG,
+    K::Cap,
+    K::Query,
+    K::Query,
+];
+
+fn walker_op<Ix: IndexType>(ctx: &mut Ctx, gen: &mut Gen, any: &mut AnyG<Ix>, walkers: &mut Vec<WalkNeighbors<Ix>>) {
+    if walkers.is_empty() || (walkers.len() < 12 && gen.rng.chance(30)) {
+        match any {
+            AnyG::D(g) => walker_new(ctx, gen, g, walkers),
+            AnyG::U(g) => walker_new(ctx, gen, g, walkers),
+        }
+        // 60 %: the documented use right away - step the fresh walker while weights are mutated / queries are made
+        if !walkers.is_empty() && gen.rng.chance(60) {
+            let w = walkers.len() - 1;
+            let rounds = 1 + gen.rng.below(4);
+            for _ in 0..rounds {
+                if gen.rng.chance(65) {
+                    let kind = *gen.rng.pick(&QUIET);
+                    let need_dump = match any {
+                        AnyG::D(g) => apply(ctx, gen, g, kind),
+                        AnyG::U(g) => apply(ctx, gen, g, kind),
+                    };
+                    if need_dump {
+                        dump_any(ctx, any, &mut *gen.rng);
+                    }
+                }
+                let steps = 1 + gen.rng.below(2);
+                walker_steps(ctx, gen, any, walkers, w, steps);
+                // an older walker in between
+                if w > 0 && gen.rng.chance(25) {
+                    let o = gen.rng.below(w);
+                    walker_steps(ctx, gen, any, walkers, o, 1);
+                }
+            }
+        }
+    } else {
+        // mostly the most recent walkers (they still have something to list), sometimes an old one
+        let k = walkers.len();
+        let w = if gen.rng.chance(70) { k - 1 - gen.rng.below(k.min(3)) } else { gen.rng.below(k) };
+        let steps = 1 + gen.rng.below(3);
+        walker_steps(ctx, gen, any, walkers, w, steps);
+    }
+}
+
+/// at the end of a case every walker is run to exhaustion on the final graph: at most `2 m` items
+/// (each of the two chains is shorter than the edge array), then `None`
+fn walker_drain<Ix: IndexType>(ctx: &mut Ctx, any: &AnyG<Ix>, walkers: &mut [WalkNeighbors<Ix>]) {
+    let m = match any {
+        AnyG::D(g) => g.edge_count(),
+        AnyG::U(g) => g.edge_count(),
+    };
+    let k = walkers.len();
+    for w in (0..k).rev().take(5) {
+        let mut steps = 0usize;
+        loop {
+            let more = match any {
+                AnyG::D(g) => walker_next(ctx, 0, g, walkers, w),
+                AnyG::U(g) => walker_next(ctx, 0, g, walkers, w),
+            };
+            if !more {
+                break;
+            }
+            steps += 1;
+            if steps > 2 * m + 2 {
+                ctx.line(&format!("walker_next {}", w), "RUNAWAY-walker");
+                break;
+            }
+        }
+    }
+}
+
 fn run_case<Ix: IndexType>(ctx: &mut Ctx, rng: &mut Rng, case: u64, w: u32, init: AnyG<Ix>) {
     let dirname = match init {
         AnyG::D(_) => "dir",
@@ -850,6 +1015,9 @@ fn run_case<Ix: IndexType>(ctx: &mut Ctx, rng: &mut Rng, case: u64, w: u32, init
     ctx.raw(&format!("case {} w={} {}", case, w, dirname));
     let kmax: usize = <Ix as IndexType>::max().index();
     let mut any = init;
+    // detached walkers kept alive across the history (55 % of the cases interleave walker calls)
+    let mut walkers: Vec<WalkNeighbors<Ix>> = Vec::new();
+    let walker_pct: u32 = if rng.chance(55) { *rng.pick(&[8u32, 15, 25]) } else { 0 };
     // family: ordinary history, or (u8 only) a capacity history
     let fam = if w == 8 { rng.below(5) } else { 0 };
     let mut phase_plan: Vec<(usize, usize)> = Vec::new(); // (phase, ops)
@@ -911,6 +1079,11 @@ fn run_case<Ix: IndexType>(ctx: &mut Ctx, rng: &mut Rng, case: u64, w: u32, init
     for (phase, count) in phase_plan {
         let ws = weights(phase);
         for _ in 0..count {
+            if walker_pct > 0 && rng.chance(walker_pct) {
+                let bad = rng.chance(14);
+                let mut gen = Gen { rng: &mut *rng, kmax, bad };
+                walker_op(ctx, &mut gen, &mut any, &mut walkers);
+            }
             let mut kind = KINDS[rng.weighted(&ws)];
             let empty = match &any {
                 AnyG::D(g) => g.node_count() == 0,
@@ -953,6 +1126,7 @@ fn run_case<Ix: IndexType>(ctx: &mut Ctx, rng: &mut Rng, case: u64, w: u32, init
         }
     }
     dump_any(ctx, &any, rng);
+    walker_drain(ctx, &any, &mut walkers);
 }
 
 pub fn run(ctx: &mut Ctx, case: u64) {
